@@ -120,6 +120,9 @@ def check_program(prog, version, ctr, with_function):
             dot = f.read()
         os.remove(path)
         ctr["call_graph_exports_read"] += 1
+        bad = common.dot_malformed(dot)
+        if bad:
+            viol.append(("call-graph-malformed", "call-graph.dot is not a well-formed digraph: %s" % bad))
         edges = set(re.findall(r"^(\S+) -> (\S+);$", dot, re.M))
         nodes = set(re.findall(r"^(\S+)\[label=", dot, re.M))
 
